@@ -21,6 +21,9 @@ func globRules() []*Rule {
 		{ID: "GLOB-3", Props: []string{"C20", "C19"}, Min: 1,
 			Doc: "the only goroutine the module starts is the driver's row producer",
 			Run: runGlob3},
+		{ID: "ARG-RO", Props: []string{"C20", "C03", "C18"}, Min: 1,
+			Doc: "what the caller hands in stays the caller's: no function of the API packages stores into an element of a slice (or map) it received as a parameter or receiver — a Key or a column list shared between goroutines or reused between calls is never rewritten (the one exception is database/sql's dest slice in Rows.Next, an out-parameter by contract)",
+			Run: runArgRO},
 		{ID: "GLOB-4", Props: []string{"C20"}, Min: 3,
 			Doc: "per-handle mutable state (Database.dirty/header/objectCache, btreeCache.elem, filePager.readLock) is written only through the method receiver or a freshly constructed handle — never through a handle obtained from elsewhere",
 			Run: runGlob4},
@@ -446,4 +449,126 @@ func runGlob4(c *Ctx) {
 			c.Check(okBase, key, s.Pos(), "per-handle state is written through %s", map[bool]string{true: "the method's own receiver / a handle under construction", false: "a handle obtained from elsewhere (" + accessPath(fa.X) + ")"}[okBase])
 		}
 	}
+}
+
+// argROExceptions: parameters that are out-parameters by contract.
+var argROExceptions = map[string]string{
+	"(*driver.Rows).Next:dest": "database/sql's driver.Rows contract: Next fills dest",
+}
+
+func runArgRO(c *Ctx) {
+	p := c.P
+	n := 0
+	for _, fn := range p.ModFuncs() {
+		ps := p.PkgShort(fn)
+		if ps != "." && ps != "driver" {
+			continue
+		}
+		// where does a stored-to container come from?
+		var origin func(v ssa.Value, depth int) *ssa.Parameter
+		origin = func(v ssa.Value, depth int) *ssa.Parameter {
+			if depth > 8 {
+				return nil
+			}
+			switch x := v.(type) {
+			case *ssa.Parameter:
+				return x
+			case *ssa.Slice:
+				return origin(x.X, depth+1)
+			case *ssa.ChangeType:
+				return origin(x.X, depth+1)
+			case *ssa.Phi:
+				for _, e := range x.Edges {
+					if o := origin(e, depth+1); o != nil {
+						return o
+					}
+				}
+			case *ssa.UnOp:
+				// a parameter spilled into a cell (captured or address-taken)
+				if al, ok := x.X.(*ssa.Alloc); ok && x.Op == token.MUL {
+					for _, st := range cellStores(al) {
+						if o := origin(st.Val, depth+1); o != nil {
+							return o
+						}
+					}
+				}
+			}
+			return nil
+		}
+		for _, in := range instrs(fn) {
+			var container ssa.Value
+			switch x := in.(type) {
+			case *ssa.Store:
+				if ia, ok := x.Addr.(*ssa.IndexAddr); ok {
+					if _, isSl := ia.X.Type().Underlying().(*types.Slice); isSl {
+						container = ia.X
+					}
+				}
+			case *ssa.MapUpdate:
+				container = x.Map
+			}
+			if container == nil {
+				continue
+			}
+			par := origin(container, 0)
+			if par == nil {
+				continue
+			}
+			n++
+			key := fmt.Sprintf("%s:%s", p.FnKey(fn), par.Name())
+			if why, ok := argROExceptions[key]; ok {
+				c.Pass(key, in.Pos(), "exception: %s", why)
+				continue
+			}
+			if argFreshAtCallSites(p, fn, par, origin, 0) {
+				c.Pass(key, in.Pos(), "every call site hands `%s` a slice it has just made", par.Name())
+				continue
+			}
+			c.Fail(key, in.Pos(), "%s stores into an element of `%s`, which the caller handed in: a Key, column list or buffer that the caller shares between goroutines or reuses for the next call is rewritten under it", p.FnKey(fn), par.Name())
+		}
+	}
+	if n == 0 {
+		c.Pass("no stores into arguments", token.NoPos, "no function of the API packages stores into a slice or map it was given")
+	}
+}
+
+// argFreshAtCallSites: fn is not exported and at each of its call sites the argument bound to par is a slice made in
+// the caller (or, in turn, a parameter of an unexported caller of which the same holds).
+func argFreshAtCallSites(p *Program, fn *ssa.Function, par *ssa.Parameter, origin func(ssa.Value, int) *ssa.Parameter, depth int) bool {
+	if depth > 3 || fn.Object() == nil || fn.Object().Exported() || fn.Parent() != nil {
+		return false
+	}
+	idx := -1
+	for i, q := range fn.Params {
+		if q == par {
+			idx = i
+		}
+	}
+	node := p.CG.Nodes[fn]
+	if idx < 0 || node == nil || len(node.In) == 0 {
+		return false
+	}
+	for _, e := range node.In {
+		if e.Site == nil || e.Site.Common().StaticCallee() != fn || idx >= len(e.Site.Common().Args) {
+			return false
+		}
+		a := e.Site.Common().Args[idx]
+		for i := 0; i < 4; i++ {
+			if sl, ok := a.(*ssa.Slice); ok {
+				a = sl.X
+			}
+		}
+		switch x := a.(type) {
+		case *ssa.MakeSlice:
+			continue
+		case *ssa.Alloc:
+			continue
+		default:
+			if q := origin(x, 0); q != nil && q.Parent() == e.Caller.Func && argFreshAtCallSites(p, e.Caller.Func, q, origin, depth+1) {
+				continue
+			}
+			return false
+		}
+	}
+	return true
 }
